@@ -14,6 +14,7 @@ import (
 
 	"verif/sim/core"
 	_ "verif/sim/worlds/brk"
+	_ "verif/sim/worlds/cli"
 	_ "verif/sim/worlds/conn"
 	_ "verif/sim/worlds/lib"
 )
